@@ -209,6 +209,11 @@ def scenarios(tier):
             C[0] = [[("open", "p"), ("write", 0, b"hello")]]
         S.append(mk("unexpected-open-%s" % exp_name, C, expected=exp,
                     dev_bound=None if (exp_name == "expected-q" or not q) else 3, max_depth=80, max_states=3000000))
+    # two declared names, OPENs for both held until the listeners appear, the listeners registered in either order: each held OPEN
+    # surfaces under its own name, once (with expected_subprotocols unset and with both names declared)
+    for exp_name, exp in (("unset", {}), ("pq", {1: {"p", "q"}})):
+        TWO = {0: [[("open", "p"), ("write", 0, b"for-p")], [("open", "q"), ("write", 1, b"for-q")]], 1: [[("listen", "q")], [("listen", "p")]]}
+        S.append(mk("two-names-held-listen-any-order-%s" % exp_name, TWO, expected=exp, dev_bound=3 if q else 4, max_depth=80))
     H = {0: [[("open", "h", "half"), ("write", 0, b"h1"), ("half_close", 0)]],
          1: [[("listen", "h", "half")], [("swrite", 0, b"r1"), ("shalf_close", 0)]]}
     S.append(mk("half-closeable", H, dev_bound=3 if q else None, max_depth=80, max_states=3000000))
